@@ -806,6 +806,11 @@ func registerStdIntrinsics(c func(string, intrinsicImpl)) {
 			panic(targetPanic{m.errString("log." + name + " called")})
 		})
 	}
+	// metrics (opencensus): never the subject
+	for _, n := range []string{"OnHeight", "OnRound"} {
+		c("(*github.com/icon-project/goloop/server/metric.ConsensusMetric)."+n, nop)
+	}
+	c("go.opencensus.io/stats.Record", nop)
 	// pkg/errors stack capture
 	c("github.com/pkg/errors.callers", zeroRes)
 	// ---- internal/bytealg & friends ----
